@@ -34,7 +34,8 @@ ASSUMPTIONS = ["single process, in-process SQL engine over an on-disk repository
                "tags and stashes, from a fresh session"]
 REQUIRED_TAGS = ["mode-default", "mode-full", "mode-shallow", "mode-archive", "concurrent", "concurrent-acked", "garbage-dropped",
                  "scn-merge", "scn-cherry", "scn-revert", "scn-rebase", "scn-rebase_conflict", "continue-after-gc",
-                 "continue-merge", "continue-cherry", "continue-rebase", "continue-rebase_conflict", "remote-tracking-refs"]
+                 "continue-merge", "continue-cherry", "continue-rebase", "continue-rebase_conflict", "remote-tracking-refs", "adaptive-out-of-band-small-value",
+                 "commit-before-begin-gc", "oldgen-then-retarget", "oldgen-then-retarget-full"]
 HARNESS_TIMEOUT = 2400
 COQ_SHARD = 12
 
@@ -45,7 +46,15 @@ MODES = ["", "--full", "--shallow", "--archive-level=0", "--archive-level=1"]
 def gen_cases(rng, tier):
     cases = [{"dropx": True, "cont": "revert", "mode": ""},                      # F2 regression (repaired)
              {"confbase": True, "cont": "conflicts_read", "mode": ""},         # witness of the ConflictMetadata.bc finding
-             {"confbase": True, "cont": "conflicts_read", "mode": "--shallow"}]  # control: no sweep
+             {"confbase": True, "cont": "conflicts_read", "mode": "--shallow"},  # control: no sweep
+             # a commit landing between entering the collector and BeginGC (deterministic window, real ValueStore.GC)
+             {"window": True, "rows": 1, "mode": ""}, {"window": True, "rows": 5, "mode": "--full"},
+             # default gc (history moves to the old generation) -> the branch is deleted, a tag and a stash still hold it -> gc under test
+             {"scn": "plain", "rows": 3, "pregc": True, "mode": "--full", "tag": True},
+             {"scn": "merge", "rows": 5, "pregc": True, "mode": "--full", "stash": True},
+             {"scn": "plain", "rows": 3, "pregc": True, "mode": "--archive-level=0"},
+             {"scn": "rebase_conflict", "rows": 3, "pregc": True, "mode": "--archive-level=1"},
+             {"scn": "plain", "rows": 3, "pregc": True, "mode": ""}]
     n = 3 if tier == "quick" else 40
     for scn in SCNS:
         for j in range(n):
@@ -55,6 +64,7 @@ def gen_cases(rng, tier):
             if scn == "revert":
                 c["pending"] = rng.random() < 0.6
             c["remote"] = rng.random() < 0.5
+            c["wide"] = (j == 0) or rng.random() < 0.3   # wide rows: short out-of-band adaptive values must survive the collection
             c["concurrent"] = (j == 2) or rng.random() < 0.15
             if scn in ("merge", "cherry", "rebase", "rebase_conflict") and not c["concurrent"]:
                 c["cont"] = "resolve"        # finish the in-progress operation after the collection
@@ -87,7 +97,7 @@ def classify(case, out):
     o = out.get("obs")
     if o is None or out.get("panic") or out.get("err"):
         return ["panic-or-error"]
-    t = ["scn-" + case.get("scn", "confbase" if case.get("confbase") else "dropx")]
+    t = ["scn-" + case.get("scn", "confbase" if case.get("confbase") else ("window" if case.get("window") else "dropx"))]
     m = case.get("mode", "")
     t.append({"": "mode-default", "--full": "mode-full", "--shallow": "mode-shallow"}.get(m, "mode-archive"))
     if case.get("concurrent"):
@@ -98,8 +108,16 @@ def classify(case, out):
         t.append("script-error")
     if o.get("gc_err"):
         t.append("gc-error")
+    if case.get("window"):
+        t.append("commit-before-begin-gc")
+    if case.get("pregc"):
+        t.append("oldgen-then-retarget")
+        if case.get("mode") == "--full":
+            t.append("oldgen-then-retarget-full")
     if case.get("remote"):
         t.append("remote-tracking-refs")
+    if case.get("wide"):
+        t.append("adaptive-out-of-band-small-value")
     if case.get("cont") == "resolve":
         t.append("continue-" + case.get("scn", "?"))
     if case.get("cont"):
@@ -116,7 +134,7 @@ def classify(case, out):
 
 def nontrivial(case, out):
     o = out.get("obs")
-    return bool(o) and len(o.get("graph") or []) >= 20
+    return bool(o) and (len(o.get("graph") or []) >= 20 or case.get("window"))
 
 
 def shrink_candidates(case):
